@@ -837,6 +837,8 @@ class SymEval:
             return self.A.sym('pi', 3.141592653589793)
         if q == 'numpy.inf':
             return Opaque('inf')
+        if q == 'numpy.newaxis':
+            return None
         if q is not None and not q.startswith('pyins.'):
             return Opaque('ext', q)
         if q in self.repo.modules:
@@ -1805,6 +1807,24 @@ class SymEval:
             return Opaque('ix', *args)
         if q == 'numpy.arange':
             return Opaque('arange', *args)
+        if q == 'numpy.concatenate' and args and isinstance(args[0], (list, tuple)) and args[0] \
+                and set(kwargs) <= {'axis'} and len(args) <= 2:
+            # np.concatenate(seq, axis): the hstack / vstack it is for these operands
+            ax_ = kwargs.get('axis', args[1] if len(args) > 1 else 0)
+            seq_ = args[0]
+            if all(isinstance(x, SArray) and len(x.shape) == 2 and not x.sample for x in seq_) \
+                    and ax_ in (0, 1, -1):
+                return self.call_ext('numpy.vstack' if ax_ == 0 else 'numpy.hstack', [seq_], {},
+                                     node)
+            if all((isinstance(x, SArray) and len(x.shape) == 1) or
+                   (isinstance(x, (Rat, int, float)) and not isinstance(x, bool))
+                   for x in seq_) and ax_ in (1, -1):
+                # rows of the generic sample joined along the component axis
+                return self.call_ext('numpy.hstack', [seq_], {}, node)
+            if all(isinstance(x, SArray) and len(x.shape) == 1 and not x.sample
+                   for x in seq_) and ax_ == 0:
+                return self.call_ext('numpy.hstack', [seq_], {}, node)
+            raise Unsupported('np.concatenate of these operands along axis %r' % (ax_,))
         if q in ('numpy.hstack', 'numpy.vstack', 'numpy.block') and \
                 isinstance(args[0], (list, tuple)) and args[0] and \
                 all(isinstance(x, SArray) and len(x.shape) == 2 for x in args[0]):
